@@ -114,6 +114,15 @@ async def do_op(sim, request):
             CER.set(body)
 
         flag, reason = await is_valid_expression(op["expr"], setter)
+        contents = [dumps([b.get("requirement_constraints"), b.get("format_constraints")]) for b in handed_out]
+        if len(set(contents)) != len(contents) and sim.shared_violation is None:
+            # every evaluation of the validity check has data of its own: the same content evaluation result must not
+            # be handed to two of them
+            sim.shared_violation = (
+                "isolation:valid",
+                f"{REQ.get()}: is_valid_expression({op['expr']!r}) handed the same content evaluation result to "
+                f"{len(contents) - len(set(contents)) + 1} of its {len(contents)} evaluations",
+            )
         if flag and op.get("has_rc"):
             # every evaluation sees its own data: whatever was set for an evaluation has been seen by that
             # evaluation's requirement-constraint evaluators (all of them ran to completion: the verdict is True)
